@@ -39,11 +39,11 @@ pub fn regime(rng: &mut Rng) -> Regime {
 /// unpruned/pruned compositions and eliminations, so that nodes carry cached states.
 pub fn tree_with_history(rng: &mut Rng, case: u64, ev: &mut Ev, partial_bias: bool) -> Option<(AffTree<2>, Vec<String>)> {
     let rg = regime(rng);
-    let n = 1 + rng.below(3);
+    let n = if rng.chance(0.1) { 4 } else { 1 + rng.below(3) };
     let m = 1 + rng.below(3);
     let mut hist = Vec::new();
     let mut cfg = TreeCfg::basic(2, n, m, rg);
-    cfg.max_depth = rng.below(4);
+    cfg.max_depth = if rng.chance(0.1) { 5 + rng.below(2) } else { rng.below(4) };
     cfg.allow_leaf_root = true;
     cfg.p_missing = if partial_bias || rng.chance(0.4) { 0.3 } else { 0.0 };
     cfg.p_contra = if rng.chance(0.6) { 0.5 } else { 0.0 };
